@@ -133,6 +133,7 @@ func c03(c *core.Ctx, r *core.Report) {
 		r.Fail("infra.anchor-unresolved", "R03.base|isBaseCase", "", "not found")
 	}
 	// ---- R03.seenkey
+	seenEnqueueRule(c, r, "R03.seenenq", "analysis/backtrace")
 	seenKeyRule(c, r, "R03.seenkey", "analysis/backtrace", "the trace behind the second entry into a shared helper chain stops at the inner call, its origin appears in no trace")
 	treeKeyRule(c, r, "R03.seenkey", "backward states with different outer callers are merged")
 	c03param(c, r)
